@@ -160,5 +160,18 @@ PushedOnce == \A c \in Comp : Cardinality({i \in 1..Len(nodes) : nodes[i] = c}) 
 \* (C13) a component is converted at most twice for a valid schema: once ahead of its declaration, once at it
 AllResolvable == \A a \in Range(order) : \A i \in 1..Len(refs[a]) : refs[a][i].to \in Range(order) \cup known
 BoundedWork == (ValidSchema /\ AllResolvable) => \A c \in Comp : work[c] <= 2
+\* (C02, C11 in the small) WHAT the machine computes: a declared component is converted and pushed, in document order,
+\* exactly when its references resolve - a name to something declared or handed down, a base to something handed down
+\* or to a declared component that is itself convertible; nothing else is dropped, nothing is pushed twice
+Exists(t) == t \in Range(order) \cup known
+RECURSIVE Convertible(_, _)
+Convertible(c, n) ==
+  /\ n > 0
+  /\ \A i \in 1..Len(refs[c]) :
+        LET r == refs[c][i] IN
+        /\ r.to \in Comp
+        /\ IF r.how = "name" THEN Exists(r.to)
+           ELSE r.to \in known \/ (r.to \in Range(order) /\ Convertible(r.to, n - 1))
+FinalExact == (Done /\ ValidSchema) => nodes = SelectSeq(order, LAMBDA c : Convertible(c, Cardinality(Comp) + 1))
 Terminates == <>Done
 =======================================================================
